@@ -126,6 +126,9 @@ def gen_scenario(seed, profile="stream"):
             api = rng.choice(("Fetch", "Fetch", "Fetch", "ListOffsets", "OffsetFetch", "OffsetCommit", "FindCoordinator",
                               "Metadata"))
             r = rng.random()
+            if api == "Fetch" and rng.random() < 0.25:
+                faults.append(dict(api=api, nth=[rng.randint(0, 3)], action=dict(kind="corrupt")))
+                continue
             if r < 0.5:
                 code = rng.choice((3, 5, 6, 7, 9, 14, 15, 16, 2, -1))
                 act = dict(kind="error", code=code)
